@@ -26,17 +26,21 @@
 (*                 write, read of the free variables the body references,  *)
 (*                 read of a global.                                       *)
 (* Actions on the pair (f, g = Convert(f)); side "c" is the wrapper made   *)
-(* by the malt.convert() decorator (converts at call time), side "sib" a   *)
-(* sibling closure sharing cells with f:                                   *)
+(* by the malt.convert() decorator (converts at call time), side "r" a      *)
+(* converted caller that forwards its arguments to f, so that f is reached *)
+(* as a *callee* by recursive conversion (impl/api.py converted_call with  *)
+(* options.call_options(): user_requested = FALSE) - for a decorated       *)
+(* function whose decorator returns a wrapper, that caller is the          *)
+(* decorator's own wrapper -, side "sib" a sibling closure sharing cells   *)
+(* with f:                                                                 *)
 (*   Convert(i), Call(side, binding), Rebind(side, name, how),             *)
 (*   ReadBack(side, name), MutateDefault(side, slot), RebindGlobal(side).  *)
 (* A scenario (signature x default kinds x entity kind x closure shape) is *)
 (* picked by two setup actions so that random generation (TLC -generate)   *)
 (* never has to enumerate the scenario space as initial states.            *)
-(* Deliberate deviation from the code: instantiate() raises "closure       *)
-(* mismatch" when the regenerated factory references fewer free variables  *)
-(* than the source function; the property allows such a cell to be absent  *)
-(* from g, and so does Instantiate here (see notes/C09.md, known finding). *)
+(* A cell may be absent from g when the regenerated factory references     *)
+(* fewer free variables than the source function (instantiate() used to    *)
+(* raise "closure mismatch" there: notes/C09.md, finding fixed in /repo).  *)
 (*                                                                         *)
 (* TLC checks the laws on the model (Agree, AgreeCalls, NoCrossTalk,       *)
 (* SideEffectsOnce) and prints every complete behaviour with the expected  *)
@@ -54,11 +58,14 @@ CONSTANTS MaxPO,      \* positional-only parameters 0..MaxPO  (<= 2)
           Kinds,      \* subset of {"def","lambda","method","nested","loopdef","decorated"}
           Depth,      \* number of actions after the scenario is set up
           DKSet,      \* subset of {"list", "obj", "mixed"}: kinds of default values
+          WrapSet,    \* subset of BOOLEAN: decorated functions whose decorator returns a wrapper (TRUE) / the function
           PreSet,     \* subset of BOOLEAN: TRUE = g is made right after the definitions, FALSE = by a Convert step
           Mode,       \* call bindings: "bind" every binding, on g;  "bindc" on g and the convert() wrapper;
+                      \* "bindr" on g, the convert() wrapper and through the converted caller;
                       \* "env" the minimal call only;  "sim" everything, for random behaviours (TLC -generate)
           MaxKw,      \* keyword arguments per call <= MaxKw
-          Variant     \* "ok" (the code) | "bypos" (cells matched by position: a wrong design, for the self test)
+          Variant     \* "ok" (the code) | wrong designs for the self test: "bypos" (cells matched by position),
+                      \* "calleedeco" (decorators dropped only from the function the user asked to convert)
 
 PONames   == <<"a", "b">>
 PNames    == <<"c", "d">>
@@ -66,7 +73,7 @@ KONames   == <<"k", "m">>
 FreeNames == <<"v0", "v1", "v2">>
 AllKinds  == {"def", "lambda", "method", "nested", "loopdef", "decorated"}
 DKs       == {"list", "obj", "mixed"}
-ASSUME /\ Kinds \subseteq AllKinds /\ DKSet \subseteq DKs /\ PreSet \subseteq BOOLEAN
+ASSUME /\ Kinds \subseteq AllKinds /\ DKSet \subseteq DKs /\ PreSet \subseteq BOOLEAN /\ WrapSet \subseteq BOOLEAN
        /\ MaxPO <= 2 /\ MaxP <= 2 /\ MaxKO <= 2 /\ MaxFree <= 3
 
 VARIABLES phase,   \* "sig" -> "env" -> "conv" -> "run"
@@ -117,7 +124,10 @@ FreeShapes(kind) ==
   IF kind = "def" THEN {<<>>}                              \* module level: no enclosing function scope
   ELSE UNION {{fs \in [1..n -> FV] : kind = "lambda" => \A j \in 1..n : fs[j].role = "r"} : n \in 0..MaxFree}
 
-NoSc  == [sig |-> NoSig, dk |-> "list", kind |-> "def", free |-> <<>>, pre |-> FALSE]
+(* wrap (decorated functions only): the decorator returns a plain-Python wrapper that forwards its star and *)
+(* double-star arguments to the function,                                                                *)
+(* instead of the function itself; the name is then bound to the wrapper, f is the function it wraps.     *)
+NoSc  == [sig |-> NoSig, dk |-> "list", kind |-> "def", free |-> <<>>, pre |-> FALSE, wrap |-> FALSE]
 
 NI       == IF sc.kind = "loopdef" THEN 2 ELSE 1
 (* the instance parameter of a method precedes the "/" of the signature: positional-only if anything is *)
@@ -158,7 +168,20 @@ Instantiate(f) ==
 
 Fn(side, i) == CASE side = "f" -> F(i)
                  [] side = "g" -> gfn[i]
-                 [] OTHER      -> Instantiate(F(i))       \* "c": the convert() wrapper converts f when called
+                 [] OTHER      -> Instantiate(F(i))       \* "c": the convert() wrapper converts f when called;
+                                                          \* "r": converted_call in the converted caller does
+
+(* ---- who asked for the conversion; decorators ------------------------------- *)
+(* to_graph(f) and convert()(f) convert with user_requested = TRUE; the generated code of a converted caller *)
+(* calls ag__.converted_call(f, args, kwargs, fscope), which converts f with options.call_options():        *)
+(* user_requested = FALSE.  converters/functions.py visit_FunctionDef: the generated definition of the      *)
+(* converted entity (function scope level <= 2) has an empty decorator list in both cases; every            *)
+(* instantiation of the generated factory executes that definition, so a decorator left on it would run     *)
+(* again each time.                                                                                          *)
+UserRequested(side) == side \in {"g", "c"}
+Decorators          == IF sc.kind = "decorated" THEN 1 ELSE 0        \* decorators on the definition of f
+GenDecorators(side) == IF Variant = "calleedeco" /\ ~UserRequested(side) THEN Decorators ELSE 0
+ConvertsAtCall(side) == side \in {"c", "r"}
 
 (* ---- CPython argument binding ----------------------------------------------- *)
 IsVar(p) == p.kind \in {"vararg", "varkw"}
@@ -218,6 +241,20 @@ OutcomeIn(fn, npos, kws, dup, cmd, val, cv, ov, gv) ==
                 cellv |-> cv2, objv |-> ov2]
 Outcome(fn, npos, kws, dup, cmd, val) == OutcomeIn(fn, npos, kws, dup, cmd, val, cellv, objv, globv)
 
+(* the call as seen from a side.  Side "r": the caller, whose parameters are FwdParams (star fa, double-star   *)
+(* fk) and whose body returns f called with star fa and double-star fk, binds its own                          *)
+(* parameters first (it accepts everything but a duplicate keyword, which the call site rejects) and forwards    *)
+(* what it received to the function that converted_call made of f.                                              *)
+FwdParams == <<[name |-> "fa", kind |-> "vararg", dflt |-> 0], [name |-> "fk", kind |-> "varkw", dflt |-> 0]>>
+OutcomeVia(side, i, b, cmd, val) ==
+  IF side = "r"
+  THEN LET fb == Bind(FwdParams, b.npos, b.kws, b.dup) IN
+       IF ~fb.ok THEN [obs |-> [NoObs EXCEPT !.exc = "TypeError"], cellv |-> cellv, objv |-> objv]
+       ELSE Outcome(Fn("r", i), fb.spill, fb.extra, FALSE, cmd, val)
+  ELSE Outcome(Fn(side, i), b.npos, b.kws, b.dup, cmd, val)
+(* decorator applications after a step in which `side` converts f *)
+DecoConv(side, i) == [deco EXCEPT ![i] = @ + GenDecorators(side)]
+
 (* ---- call shapes ---------------------------------------------------------------- *)
 PlainParams == Params(sc.sig)
 KwUniverse  == {PlainParams[i].name : i \in {j \in 1..Len(PlainParams) : ~IsVar(PlainParams[j])}}
@@ -241,7 +278,8 @@ AllCalls    == {B(np, kws, dup) : np \in 0..(NPos(sc.sig) + 2),
                                   dup \in BOOLEAN} \ {B(np, {}, TRUE) : np \in 0..(NPos(sc.sig) + 2)}
 Accepted    == {b \in AllCalls : Bind(CallParams(F(1)), b.npos + SelfArgs, b.kws, b.dup).ok}
 Calls       == IF Mode = "env" THEN {MinCall} ELSE AllCalls
-CallSides   == IF Mode = "bind" THEN {"g"} ELSE IF Mode = "bindc" THEN {"g", "c"} ELSE {"f", "g", "c"}
+CallSides   == IF Mode = "bind" THEN {"g"} ELSE IF Mode = "bindc" THEN {"g", "c"}
+               ELSE IF Mode = "bindr" THEN {"g", "c", "r"} ELSE {"f", "g", "c", "r"}
                \* (bind modes: f itself is called by the harness's CPython validation of every behaviour)
 
 (* ---- state machine ----------------------------------------------------------------- *)
@@ -279,9 +317,9 @@ PickSig == /\ phase = "sig"
 
 PickEnv == /\ phase = "env"
            /\ \E kind \in Kinds : \E fs \in FreeShapes(kind) :
-              \E pre \in PreSet :
+              \E pre \in PreSet : \E wrap \in (IF kind = "decorated" THEN WrapSet ELSE {FALSE}) :
                 LET ni == IF kind = "loopdef" THEN 2 ELSE 1 IN
-                /\ sc' = [sc EXCEPT !.kind = kind, !.free = fs, !.pre = pre]
+                /\ sc' = [sc EXCEPT !.kind = kind, !.free = fs, !.pre = pre, !.wrap = wrap]
                 /\ cellv' = [c \in CellIds |->
                                LET i == c \div 10  j == c % 10 IN
                                IF i <= ni /\ j <= Len(fs) /\ fs[j].asg THEN c ELSE 0]
@@ -304,31 +342,35 @@ Live(side, i) == i <= NI /\ (side = "g" => conv[i])
 Convert(i) == /\ Running /\ i <= NI /\ ~conv[i]
               /\ gfn' = [gfn EXCEPT ![i] = Instantiate(F(i))]
               /\ conv' = [conv EXCEPT ![i] = TRUE]
+              /\ deco' = DecoConv("g", i)
               /\ hist' = Append(hist, Step("convert", "g", i, NoB, "", "", 0, NoObs, cellv, objv, globv, conv'))
-              /\ UNCHANGED <<phase, sc, cellv, objv, globv, deco, evals>>
+              /\ UNCHANGED <<phase, sc, cellv, objv, globv, evals>>
 
+(* sides "c" and "r" convert f at the call (before its arguments are bound) *)
 Call(side, i, b) ==
-  /\ Running /\ Live(side, i) /\ side \in {"f", "g", "c"}
-  /\ LET o == Outcome(Fn(side, i), b.npos, b.kws, b.dup, "", 0) IN
+  /\ Running /\ Live(side, i) /\ side \in {"f", "g", "c", "r"}
+  /\ LET o == OutcomeVia(side, i, b, "", 0) IN
      /\ cellv' = o.cellv /\ objv' = o.objv
+     /\ deco' = IF ConvertsAtCall(side) /\ ~b.dup THEN DecoConv(side, i) ELSE deco
      /\ hist' = Append(hist, Step("call", side, i, b, "", "", 0, o.obs, o.cellv, o.objv, globv, conv))
-  /\ UNCHANGED <<phase, sc, globv, deco, evals, conv, gfn>>
+  /\ UNCHANGED <<phase, sc, globv, evals, conv, gfn>>
 
 (* a nonlocal write made by the body (how = "call": the minimal call with the rebind request), through the *)
 (* cell object reachable from the function (how = "cell"), or by the sibling closure (side "sib")          *)
 Rebind(side, i, n, how) ==
   /\ Running /\ Live(side, i) /\ n \in Names /\ Role(n) # "d"
-  /\ \/ /\ how = "call" /\ side \in {"f", "g", "c"} /\ Role(n) = "w"
-        /\ LET o == Outcome(Fn(side, i), MinCall.npos, MinCall.kws, FALSE, n, Fresh) IN
+  /\ \/ /\ how = "call" /\ side \in {"f", "g", "c", "r"} /\ Role(n) = "w"
+        /\ LET o == OutcomeVia(side, i, MinCall, n, Fresh) IN
            /\ cellv' = o.cellv /\ objv' = o.objv
+           /\ deco' = IF ConvertsAtCall(side) THEN DecoConv(side, i) ELSE deco
            /\ hist' = Append(hist, Step("rebind", side, i, MinCall, n, how, Fresh, o.obs, o.cellv, o.objv, globv, conv))
      \/ /\ how = "cell" /\ side \in {"f", "g"} /\ n \in DOMAIN Fn(side, i).cells
-        /\ cellv' = [cellv EXCEPT ![Fn(side, i).cells[n]] = Fresh] /\ objv' = objv
+        /\ cellv' = [cellv EXCEPT ![Fn(side, i).cells[n]] = Fresh] /\ objv' = objv /\ deco' = deco
         /\ hist' = Append(hist, Step("rebind", side, i, NoB, n, how, Fresh, NoObs, cellv', objv, globv, conv))
      \/ /\ how = "sib" /\ side = "sib" /\ Shared(n)
-        /\ cellv' = [cellv EXCEPT ![CellId(i, FreeIdx(n))] = Fresh] /\ objv' = objv
+        /\ cellv' = [cellv EXCEPT ![CellId(i, FreeIdx(n))] = Fresh] /\ objv' = objv /\ deco' = deco
         /\ hist' = Append(hist, Step("rebind", side, i, NoB, n, how, Fresh, NoObs, cellv', objv, globv, conv))
-  /\ UNCHANGED <<phase, sc, globv, deco, evals, conv, gfn>>
+  /\ UNCHANGED <<phase, sc, globv, evals, conv, gfn>>
 
 ReadBack(side, i, n) ==
   /\ Running /\ Live(side, i) /\ n \in Names
@@ -354,14 +396,14 @@ RebindGlobal(side, i) ==
   /\ hist' = Append(hist, Step("global", side, i, NoB, "G", "", Fresh, NoObs, cellv, objv, globv', conv))
   /\ UNCHANGED <<phase, sc, cellv, objv, deco, evals, conv, gfn>>
 
-Sides == {"f", "g", "c", "sib"}
+Sides == {"f", "g", "c", "r", "sib"}
 (* one named action per kind of step (the guard Running comes first so that finished behaviours cost nothing) *)
 ConvertAct  == Running /\ \E i \in 1..NI : Convert(i)
 CallAct     == Running /\
                IF Mode = "sim"                   \* random behaviours: one third canonical, one third accepted,
-               THEN \/ \E b \in CanonCalls : \E side \in {"f", "g", "c"}, i \in 1..NI : Call(side, i, b)   \* one third any
-                    \/ \E b \in Accepted   : \E side \in {"f", "g", "c"}, i \in 1..NI : Call(side, i, b)
-                    \/ \E b \in AllCalls   : \E side \in {"f", "g", "c"}, i \in 1..NI : Call(side, i, b)
+               THEN \/ \E b \in CanonCalls : \E side \in {"f", "g", "c", "r"}, i \in 1..NI : Call(side, i, b)   \* one third any
+                    \/ \E b \in Accepted   : \E side \in {"f", "g", "c", "r"}, i \in 1..NI : Call(side, i, b)
+                    \/ \E b \in AllCalls   : \E side \in {"f", "g", "c", "r"}, i \in 1..NI : Call(side, i, b)
                ELSE \E b \in Calls : \E side \in CallSides, i \in 1..NI : Call(side, i, b)
 RebindAct   == Running /\ \E side \in Sides, i \in 1..NI, n \in Names, how \in {"call", "cell", "sib"} : Rebind(side, i, n, how)
 ReadBackAct == Running /\ \E side \in Sides, i \in 1..NI, n \in Names : ReadBack(side, i, n)
@@ -381,24 +423,28 @@ Agree == \A i \in Converted :
            /\ CallParams(g) = CallParams(f)                                \* same names, kinds, order (+ self)
            /\ \A n \in DOMAIN g.cells \ {"ag__"} : n \in DOMAIN f.cells /\ g.cells[n] = f.cells[n]
            /\ \A n \in DOMAIN f.cells : n \notin DOMAIN g.cells => Role(n) = "d"
-(* every call has the same outcome (result, exception, effect on the heap) on f, g and the convert() wrapper *)
+(* every call has the same outcome (result, exception, effect on the heap) on f, g, the convert() wrapper and *)
+(* through a converted caller                                                                                *)
 LastAct == IF hist = <<>> THEN "" ELSE hist[Len(hist)][1]
-AgreeCalls == \A i \in Converted : LastAct # "call" => \A b \in (IF Mode \in {"bind", "bindc"} THEN AllCalls ELSE CanonCalls) :
+AgreeCalls == \A i \in Converted : LastAct # "call" => \A b \in (IF Mode \in {"bind", "bindc", "bindr"} THEN AllCalls ELSE CanonCalls) :
                 /\ Outcome(F(i), b.npos, b.kws, b.dup, "", 0) = Outcome(gfn[i], b.npos, b.kws, b.dup, "", 0)
                 /\ Outcome(F(i), b.npos, b.kws, b.dup, "", 0) = Outcome(Fn("c", i), b.npos, b.kws, b.dup, "", 0)
+                /\ Outcome(F(i), b.npos, b.kws, b.dup, "", 0) = OutcomeVia("r", i, b, "", 0)
 (* functions made from one code object keep their own cells and defaults *)
 NoCrossTalk == (phase = "run" /\ NI = 2 /\ conv[1] /\ conv[2]) =>
                  /\ \A n \in DOMAIN gfn[1].cells \ {"ag__"} : gfn[1].cells[n] # gfn[2].cells[n]
                  /\ SlotObjs(gfn[1]) \cap SlotObjs(gfn[2]) = {}
-(* conversion neither re-applies decorators nor re-evaluates default expressions *)
+(* no conversion - requested by the user or reached from a converted caller - re-applies decorators or *)
+(* re-evaluates default expressions                                                                    *)
 SideEffectsOnce == phase = "run" =>
                      \A i \in 1..NI : deco[i] = (IF sc.kind = "decorated" THEN 1 ELSE 0) /\ evals[i] = NDef(sc.sig)
 
 (* ---- expected observations for the harness: one JSON line per complete behaviour --------- *)
 Key   == <<sc.sig.npo, sc.sig.np, B2I(sc.sig.va), sc.sig.nk, B2I(sc.sig.vk), sc.sig.nd, sc.sig.kd, sc.dk, sc.kind,
-           [j \in 1..NFree |-> <<sc.free[j].role, B2I(sc.free[j].asg), B2I(sc.free[j].sh)>>], B2I(sc.pre)>>
+           [j \in 1..NFree |-> <<sc.free[j].role, B2I(sc.free[j].asg), B2I(sc.free[j].sh)>>], B2I(sc.pre), B2I(sc.wrap)>>
 ScOut == [npo |-> sc.sig.npo, np |-> sc.sig.np, va |-> sc.sig.va, nk |-> sc.sig.nk, vk |-> sc.sig.vk,
           nd |-> sc.sig.nd, kd |-> sc.sig.kd, dk |-> sc.dk, kind |-> sc.kind, free |-> sc.free, pre |-> sc.pre,
+          wrap |-> sc.wrap, rprobe |-> "r" \in CallSides,
           ni |-> NI, params |-> Params(sc.sig), selfparam |-> SelfParam, gcells |-> DOMAIN Instantiate(F(1)).cells, post |-> Post,
           probes |-> Probes(cellv, objv, globv), mut |-> {s \in Slots : Mutable(ObjId(1, s))}]
 ReportSc == (phase = "run" /\ hist = <<>>) => PrintT(ToJson([k |-> Key, sc |-> ScOut]))
